@@ -52,7 +52,7 @@ PREFIXES = {"z80": [0xcb, 0xdd, 0xed, 0xfd], "stm8": [0x72, 0x90, 0x91, 0x92], "
 class C15(Engine):
     prop = "C15"
     title = "every simulator survives every opcode from every state, deterministically"
-    quick_budget = 45
+    quick_budget = 90
     quick_runs = 12000
     thorough_budget = 1200
     variants = ("small",)
